@@ -1355,6 +1355,18 @@ def ref_positions(fn, names, method=True):
     return list(range(len(names)))
 
 
+def pos_of(fn, name, ref_index, ref_arity, method=True):
+    """position of the parameter the reference tree calls `name` (there at `ref_index` of `ref_arity` parameters): by name when the function
+    still has a parameter of that name (others may have been dropped, added or moved), else the reference position while the number of
+    parameters is unchanged (a rename), else None"""
+    params = [a.arg for a in fn.args.args]
+    if method and params and params[0] in ("self", "cls"):
+        params = params[1:]
+    if name in params:
+        return params.index(name)
+    return ref_index if len(params) == ref_arity else None
+
+
 def values_by_ref_names(fn, args, kwargs, names, method=True):
     """like args_by_ref_names for evaluated arguments (a hook's positional list and keyword dict)"""
     params = [a.arg for a in fn.args.args]
